@@ -45,22 +45,21 @@ Fixpoint pick (rows : list row) (idx : list N) : option (list row) :=
 
 Definition nonempty {A} (l : list A) : bool := match l with [] => false | _ => true end.
 
-(* every observed output equals the expected rows *)
-Definition all_equal (rows expect : list row) (outs : list (res (list N))) : bool :=
+(* every observed output equals the expected result *)
+Definition all_equal (rows : list row) (expect : res (list row)) (outs : list (res (list N))) : bool :=
   nonempty outs &&
-  forallb (fun o => match o with
-                    | Ok idx => match pick rows idx with Some l => rows_eqb l expect | None => false end
-                    | _ => false end) outs.
+  forallb (fun o => match o, expect with
+                    | Ok idx, Ok e => match pick rows idx with Some l => rows_eqb l e | None => false end
+                    | Panic, Panic => true
+                    | _, _ => false end) outs.
 
 (* does the model still describe the code? *)
 Definition corr (c : case) : bool :=
-  match by_ (ck c) (cd c) (casc c) with
-  | Ok less =>
-    let s := sort_rows less (crows c) in
-    let lim := match cbound c with None => limit_pp (climit c) s | Some b => limit_fin (climit c) b s end in
-    all_equal (crows c) s (cfull c) && all_equal (crows c) lim (clim c)
-  | _ => nonempty (cfull c) && forallb is_panic (cfull c) && nonempty (clim c) && forallb is_panic (clim c)
-  end.
+  all_equal (crows c) (run_sort (ck c) (cd c) (casc c) (crows c)) (cfull c)
+  && all_equal (crows c)
+       (match cbound c with
+        | None => run_pp (ck c) (cd c) (casc c) (climit c) (crows c)
+        | Some b => run_fin (ck c) (cd c) (casc c) (climit c) b (crows c) end) (clim c).
 
 (* ---- the specification, written against the record fields only (no comparator of the model) *)
 Definition valid_order (k d : Z) : bool :=
